@@ -402,6 +402,8 @@ Proof.
     repeat (apply bytes_ok_cons in Hok; destruct Hok as [? Hok]).
     rewrite opt_step_3. unfold pi_unmarshal. change (at_ (3 :: 4 :: _) 1) with 4.
     change (negb (4 =? 4)) with false. cbv iota. cbn [skipn].
+    change (at_ (pl :: fl :: v0 :: v1 :: v2 :: v3 :: p0 :: p1 :: p2 :: p3 :: x0 :: x1 :: x2 :: x3 :: addr) 0) with pl.
+    destruct (128 <? pl) eqn:E128; [lia|].
     unfold be32_at, at_. cbn [nth Nat.add]. unfold sub. cbn [skipn].
     rewrite firstn_all2 by lia. rewrite ip_mask128_lead by (auto; lia).
     rewrite bit7, bit6 by assumption. rewrite !be32_w32. reflexivity. }
@@ -433,6 +435,10 @@ Proof.
     rewrite opt_step_25. unfold rd_unmarshal. change (at_ (25 :: l :: _) 1) with l. cbn [skipn].
     assert (Hc : (l - 1) * 8 / 16 = (l - 1) / 2).
     { replace 16 with (8 * 2) by reflexivity. rewrite N.mul_comm. rewrite N.div_mul_cancel_l by lia. reflexivity. }
+    assert (Hm : ((l - 1) * 8) mod 16 = 0).
+    { rewrite N.odd_spec in E2. destruct E2 as [k Hk]. subst l. replace ((2 * k + 1 - 1) * 8) with (k * 16) by lia.
+      apply N.mod_mul. lia. }
+    rewrite Hm. change (negb (0 =? 0)) with false. cbv iota.
     rewrite Hc. destruct ((l - 1) / 2 =? 0) eqn:E0; [lia|].
     unfold bind. unfold be32_at, at_. cbn [nth Nat.add]. rewrite be32_w32.
     change (r0 :: r1 :: t0 :: t1 :: t2 :: t3 :: addrs) with ([r0; r1; t0; t1; t2; t3] ++ addrs).
